@@ -49,7 +49,7 @@ MITM = ['nonce', 'ke_data', 'ke_group', 'spi_i', 'spi_r', 'drop_transform', 'reo
         'insert_vendor', 'insert_unknown', 'insert_notify', 'remove_vendor', 'reorder_payloads', 'dup_payload', 'reserved_bits',
         'minor_version', 'flag_v', 'payload_reserved', 'trailing_proposal_spi']
 INSIDER = ['correct', 'wrong_psk', 'wrong_rsa_key', 'wrong_nonce', 'own_nonce_twice', 'init_octet_changed', 'other_message',
-           'other_sk_p', 'other_id_in_prf', 'reflected', 'earlier_session', 'method_swap', 'id_type', 'id_data', 'truncated',
+           'other_sk_p', 'other_id_in_prf', 'reflected', 'earlier_session', 'earlier_session_same_daemons', 'method_swap', 'id_type', 'id_data', 'truncated',
            'extended', 'zero', 'empty', 'as_create_child', 'no_auth', 'no_id']
 CRED = ['wrong_psk', 'wrong_id', 'wrong_id_type', 'expects_psk_gets_rsa', 'expects_rsa_gets_psk', 'responder_wrong_psk',
         'responder_wrong_id']
@@ -239,7 +239,7 @@ def insider_inner(s, sess, m, variant, cfg, victim_is_responder, earlier):
         if vi is None or va is None:
             return None
         au['data'], au['method'] = va['data'], va['method']
-    elif variant == 'earlier_session':
+    elif variant in ('earlier_session', 'earlier_session_same_daemons'):
         if not earlier:
             return None
         au['data'] = earlier
@@ -367,6 +367,22 @@ def run_case(case):
     # with a fresh, authentic message 1): both ends prefer the same group
     n_msg = case['msg']                      # 1..4: which message of the initial exchanges is altered
     victim = other if n_msg in (1, 3) else first
+    earlier_here = None
+    if kind == 'insider' and case['variant'] == 'earlier_session_same_daemons':
+        # a complete honest session between the same two daemon instances first (whatever they cache about it stays), torn down
+        s.establish(first)
+        ob0 = s.observer()
+        for d0 in s.w.sent_log:
+            dec0 = ob0.decoded.get(d0.id)
+            if dec0 and d0.data[18] == 35 and bool(d0.data[19] & 0x20) != (n_msg == 3):
+                au0 = next((p for p in dec0[1]['inner'] if p['t'] == 'AUTH'), None)
+                if au0:
+                    earlier_here = au0['data']
+        s.apply(['del_ike', first, 0])
+        s.flush()
+        if any(ep.sas for ep in s.eps.values()) or earlier_here is None:
+            return s.fails, info, s
+    nl0 = len(s.eps[victim].kernel.log)
     s.apply(['acquire', first, 0, 1])
     s.run([['deliver', 0]] * (n_msg - 1))
     if not s.w.inflight:
@@ -414,7 +430,7 @@ def run_case(case):
     if dec is None:
         return s.fails, info, s
     sess, m = dec
-    earlier = earlier_auth(cfg, first, victim_is_responder) if case['variant'] == 'earlier_session' else None
+    earlier = earlier_auth(cfg, first, victim_is_responder) if case['variant'] == 'earlier_session' else earlier_here
     inner = insider_inner(s, sess, m, case['variant'], cfg, victim_is_responder, earlier)
     if inner is None:
         return s.fails, info, s
@@ -444,7 +460,7 @@ def run_case(case):
         s.fail(f'established-with-wrong-auth:msg{n_msg}:{case["variant"]}',
                f'endpoint {victim} ({"responder" if victim_is_responder else "initiator"}) established the IKE_SA although the AUTH / '
                f'identity it received is wrong ({case["variant"]})')
-    if s.eps[victim].kernel.sad or s.eps[victim].kernel.requests(KN.NEWSA):       # also one that was removed again afterwards
+    if s.eps[victim].kernel.sad or s.eps[victim].kernel.requests(KN.NEWSA, since=nl0):   # also one removed again afterwards
         s.fail(f'sa-installed-with-wrong-auth:msg{n_msg}:{case["variant"]}',
                f'endpoint {victim} installed IPsec SAs although the AUTH / identity it received is wrong ({case["variant"]})')
     return s.fails, info, s
